@@ -4,5 +4,6 @@ CONSTANTS
   RN = {"r"}
   XN = {"q"}
   Missing = "zz"
+  FX = {}
 INVARIANTS EmitState
 CHECK_DEADLOCK FALSE
